@@ -256,3 +256,12 @@ func parseTime(str string) (bool, dates.TimeOfDay) {
 
 	return false, dates.ZeroTimeOfDay
 }
+
+// LoadTimezone loads the timezone with the given IANA name. Unlike time.LoadLocation it doesn't accept "Local" as a
+// name because that is the timezone of the process and not a property of the input.
+func LoadTimezone(name string) (*time.Location, error) {
+	if name == "Local" {
+		return nil, fmt.Errorf("unknown time zone %s", name)
+	}
+	return time.LoadLocation(name)
+}
